@@ -14,6 +14,7 @@ package main
 
 import (
 	"bytes"
+	"context"
 	"crypto/sha1"
 	"encoding/hex"
 	"encoding/json"
@@ -545,7 +546,9 @@ func runC09(r *evid.Run) {
 	var runs int64
 	for _, gmp := range procsList {
 		out := filepath.Join(scratch, fmt.Sprintf("child_%d.ndjson", gmp))
-		cmd := exec.Command(self, "C09-child", "quick", out)
+		cctx, ccancel := context.WithTimeout(context.Background(), 20*time.Minute)
+		defer ccancel()
+		cmd := exec.CommandContext(cctx, self, "C09-child", "quick", out)
 		cmd.Env = append(os.Environ(), "GOMAXPROCS="+strconv.Itoa(gmp), "VERIF_TIER="+r.Tier, "GORACE=halt_on_error=0")
 		var stderr bytes.Buffer
 		cmd.Stderr = &stderr
